@@ -258,7 +258,10 @@ class NDNApp:
                 self.logger.warning('Unable to decode received packet')
                 return
             if lp_pkt.nack is not None:
+                # NDNLPv2: a Nack header without NackReason means reason None (0)
                 nack_reason = lp_pkt.nack.nack_reason
+                if nack_reason is None:
+                    nack_reason = ndnlp.NackReason.NONE
             else:
                 nack_reason = None
             pit_token = lp_pkt.pit_token
